@@ -19,7 +19,7 @@ Subs == {T.subs[i] : i \in 1..Len(T.subs)}
 VARIABLES tid, l, verdict, feat
 Kind == T.traces[tid].kind            \* "single": one recording {style, ev};  "pair": two recordings {a, b}
 Tr == T.traces[tid].ev
-Polling == T.traces[tid].style = "poll"
+Polling == T.traces[tid].style \in {"poll", "handoff"}    \* (handoff: several store objects on one file -- no cross-object notification)
 
 PrevLog(i) == IF i = 1 THEN <<>> ELSE Tr[i-1].post.log
 IsPrefix(a, b) == Len(a) <= Len(b) /\ SubSeq(b, 1, Len(a)) = a
